@@ -116,6 +116,18 @@ def library_programs():
         for a in pool:
             for b in pool:
                 progs.append(("def r = do %s end; [string(r), r]" % f.replace("$a", a).replace("$b", b), False))
+    # destructuring and nested enumeration: loop variables / targets bound from sets (of strings, of sets) and map entries
+    nested = ["[<< 'pear', 'fig', 'apple' >>, << 'kiwi', 'lime', 'plum' >>, << 10, 3, 17 >>]", "<< << 'pear', 'fig', 'apple' >>, << 'kiwi', 'lime', 'plum' >> >>",
+              "<<< << 'b', 'a', 'c' >> => << 'z', 'y', 'x' >>, << 'e', 'd', 'f' >> => << 'w', 'v', 'u' >> >>>", "[['b', 'a'], << 'd', 'c', 'e' >>]"]
+    dforms = ["def r = []; for [p, q] in $a do append(r, [p, q]) end; r", "def r = []; for [p, q, t] in $a do append(r, [p, q, t]) end; r",
+              "def r = []; for x in $a do for y in x do append(r, y) end end; r", "def r = []; for [k, v] in entries $a do append(r, [k, v]) end; r",
+              "def r = []; for k in keys $a do def [p, q] = k; append(r, [p, q]) end; r", "def r = []; for x in $a do def [p, q] = x; append(r, [p, q]) end; r",
+              "def r = []; for x in $a do def p = 0; def q = 0; [p, q] = x; append(r, [p, q]) end; r", "[[y for y in x] for x in $a]", "[string(x) for x in $a]",
+              "def r = []; for x in $a do append(r, [...x]) end; r", "def f(p, q, t...) [p, q]; [f(...x) for x in $a]", "[list(x) for x in $a]", "[sorted(x) for x in $a]",
+              "[x[0] for x in [list(y) for y in $a]]", "def r = []; for x in values $a do append(r, list(x)) end; r"]
+    for a in nested:
+        for f in dforms:
+            progs.append(("def r0 = do %s end; [string(r0), r0]" % f.replace("$a", a), False))
     return progs
 
 
@@ -168,6 +180,17 @@ def main(tier, seed, replay=None):
     rep.oblige("library enumeration: %d calls / operator forms on sets and maps of strings give identical results under %d hash seeds" % (
         len(libprogs), len(seeds)), ldis == 0, "%d disagreements" % ldis)
     rep.cov["library_calls"] = len(libprogs)
+    # sets mixing numbers with dates: a date is compared with a number as text, numbers among themselves by value - the order is
+    # not transitive, so the enumeration depends on the (seeded) hash of the date  [recorded finding C12-F3]
+    mixed = ["list(<<3, 100, date('20200101')>>)", "string(<<3, 100, date('20200101'), 2.5>>)", "[k for k in keys <<<3 => 1, 100 => 2, date('20200101') => 3>>>]"]
+    mres_ = {sd: run_seed(mixed, sd, False) for sd in seeds}
+    for k, prog in enumerate(mixed):
+        rep.count(len(seeds))
+        for sd in seeds[1:]:
+            if mres_[sd][k] != mres_[seeds[0]][k]:
+                rep.violation("input", "%s gives %s under PYTHONHASHSEED=%s but %s under PYTHONHASHSEED=%s" % (prog, mres_[sd][k], sd, mres_[seeds[0]][k], seeds[0]),
+                              check="mixed-date-number", program=prog, seeds=[seeds[0], sd])
+                break
     base = results[seeds[0]]
     dis = 0
     three = 0
